@@ -309,6 +309,8 @@ def configs(tier):
                  bounds='2 replicas, 1-2 concurrent ops each, shared task with 2 properties, both sync orders'),
             dict(name='pair-causal', factory=lambda: Harness(2, 1, ('p', 'q'), 'causal', 'ca'),
                  bounds='2 replicas, one change each, the second made after seeing the first'),
+            dict(name='triple-concurrent', factory=lambda: Harness(3, 1, ('p', 'q'), 'concurrent', 'tc'),
+                 bounds='3 replicas, 1 op each, 2 properties, all 6 sync orders'),
         ]
     return [
         dict(name='pair-concurrent', factory=lambda: Harness(2, 2, ('p', 'q'), 'concurrent', 'pc'),
